@@ -1468,5 +1468,8 @@ def run_case(case, ctx):
     tmp = tempfile.mkdtemp(prefix="verif-c05-", dir=base)
     try:
         RUNNERS[case["gen"]](case, ctx, rng, tmp)
+        if case.get("idx", 99) < 16 and len(ctx.samples) < 2:
+            ctx.sample({"case": {k: v for k, v in case.items() if k != "step"},
+                        "what": "one generated collection (or stream of several) pushed through the " + case["gen"] + " monitors"})
     finally:
         shutil.rmtree(tmp, ignore_errors=True)
